@@ -37,6 +37,9 @@ def run(ctx):
     ctx.rule('C04.e-block-pairing', 'every zip over 64-byte blocks pairs identically sliced operands')
     ctx.rule('C04.g-size-steers-nothing', 'above the shard store the shard size is only validated, stored, compared with a given shard and turned into a block count: no branch with two successful continuations depends on it (which code is used for a symbol slot cannot depend on how many slots a shard has)')
     ctx.rule('C04.f-lane-pairing', 'scalar kernels index blocks only with the loop variable or loop variable + 32')
+    ctx.rule('C04.h-kernels-lane-wise', 'the SIMD kernels are straight-line lane-wise code (no decision taken on the content of a whole block) and equal to their siblings: what happens to a symbol slot cannot depend on the other slots of its block (clause shared with C03.e)')
+    from . import c03
+    ctx.guard('C04.analysable', ctx.shared, {'C03.e-kernel-siblings': 'C04.h-kernels-lane-wise'}, c03.kernel_siblings, ctx, {c: ctx.facts(c) for c in ('x86_64', 'aarch64')})
     for cfg in cfgs:
         facts = ctx.facts(cfg)
         ctx.guard('C04.analysable', c12.accessors, ctx, facts, cfg)
